@@ -580,11 +580,11 @@ def r6_queue_order_survives(ctx) -> None:
         ctx.ok("R6", f"{n} queue attributes: no label is taken out of an unordered container by position")
 
 
-def r7_optional_numbers_tested_for_none(ctx, functions: Tuple[Tuple[str, str], ...]) -> None:
+def r7_optional_numbers_tested_for_none(ctx, functions: Tuple[Tuple[str, str, Tuple[str, ...]], ...]) -> None:
     """A limit of 0 is a limit.  Parameters declared Optional[int/float] are tested with
     `is None` / `is not None`, never by truth value."""
     P = ctx.P
-    for cname, mname in functions:
+    for cname, mname, only in functions:
         m = P.need_method(cname, mname, own=True)
         f = m.node
         ctx.analysed(m)
@@ -596,6 +596,7 @@ def r7_optional_numbers_tested_for_none(ctx, functions: Tuple[Tuple[str, str], .
             s = norm(p.annotation)
             if s.startswith("Optional[") and s[9:-1] in ("int", "float", "Union[int, float]", "Union[float, int]"):
                 opt.add(p.arg)
+        opt &= set(only)
         if not opt:
             raise AnalysisError(f"R7: {m.qualname} has no Optional[int/float] parameter any more")
 
